@@ -386,7 +386,7 @@ func c05Probes(name string, lvl int) (strs []string, cores [][]int, pre []bool) 
 	}
 	for _, t := range intTuples([]int{0, 1, 2}, 4) {
 		switch name {
-		case "gem", "pypi", "nuget", "maven":
+		case "gem", "pypi", "nuget", "maven", "composer", "conan":
 			strs, cores, pre = append(strs, joinInts(t)), append(cores, t), append(pre, false)
 		}
 	}
